@@ -10,6 +10,8 @@ for d in sorted(glob.glob(os.path.join(V, "seeded", "C*-*m*"))):
     title = meta.get("title", "").replace("|", "/")
     title = re.sub(r"^m\d\s*[—–:-]\s*", "", title)[:150]
     conf = "yes" if meta.get("confirmation", {}).get("confirmed") else "NO"
+    if meta.get("obsolete_on_current_tree"):
+        conf += " (harmless on the repaired tree, see its meta.json)"
     outs = []
     for k, v in sorted(res.get("checks", {}).items()):
         outs.append("%s: **%s**%s" % (k, v["verdict"], (" — " + v["detail"][:110].replace("|", "/")) if v.get("detail") else ""))
